@@ -163,10 +163,14 @@ CHECKS.update({
 
 CHECKS.update({
     "C13": ("proof",
-            "Coq theorems (Props/C13.v, 7) about Model/{Stats,Sock,Writer}.v: an unbuffered sink hands send_to exactly one "
+            "Coq theorems (Props/C13.v, 10) about Model/{Stats,Sock,Writer}.v: an unbuffered sink hands send_to exactly one "
             "datagram per emit whose payload is the metric's bytes unchanged, to the first resolved address, and passes the "
             "OS's answer through; the buffered sinks' datagram stream is the C05 stream of the line-buffering writer with "
-            "terminator '\\n' and capacity 512 unless configured, the rest leaves on flush.  Partial by nature: what the OS "
+            "terminator '\\n' and capacity 512 unless configured, the rest leaves on flush; the scenarios the correspondence "
+            "check drives (emits/flushes/listener outages; Sock.sc_unbuffered, sc_buffered are Gallina functions, the OCaml "
+            "glue only parses and prints, a sample is re-evaluated by the kernel on every run) are characterised for every "
+            "script: the wire carries exactly the metrics emitted while the listener was there, every buffered datagram is "
+            "whole lines within the capacity or one oversized metric alone.  Partial by nature: what the OS "
             "does with a datagram is outside any model - the correspondence check observes real UDP (127.0.0.1) and Unix "
             "datagram sockets (blocking/non-blocking, ASCII / multi-byte UTF-8 / whitespace-edged / empty / up to 60 kB "
             "metrics, listener down/up as fault script, address lists of length 0/1/2, optional queuing wrapper) and compares "
@@ -177,10 +181,12 @@ CHECKS.update({
             "machine-checked proof (Coq 8.16) on a hand-written model + differential correspondence check on real local sockets",
             "DESIGN.md 8.C13"),
     "C14": ("proof",
-            "Coq theorems (Props/C14.v, 9) about Model/Stats.v for all attempt sequences and ALL interleavings (permutations) of "
+            "Coq theorems (Props/C14.v, 11) about Model/{Stats,Sock}.v for all attempt sequences and ALL interleavings (permutations) of "
             "the atomic increments of concurrent updates: packets_sent + packets_dropped = attempts, bytes_sent / bytes_dropped = "
             "sizes accepted / offered-and-refused, modulo 2^64 as fetch_add wraps and exactly when the totals fit; unbuffered: "
-            "attempts = emits; buffered: attempts = the writer's underlying writes; identical through a queuing wrapper.  "
+            "attempts = emits; buffered: attempts = the writer's underlying writes; identical through a queuing wrapper; for every "
+            "scenario with listener outages the counters read at the end are the totals of the datagrams on the wire and of "
+            "the refused metrics, each emit in exactly one of the two.  "
             "Correspondence: MetricSink::stats() after every generated socket history (incl. refused sends via a vanished Unix "
             "listener and through QueuingMetricSink), SocketStats::update hammered from 4-8 threads, a shared UdpMetricSink "
             "with 4-8 emitting threads; SocketStats::update with every io::ErrorKind and written != len (family SU); real WouldBlock "
